@@ -339,4 +339,13 @@ func NewRegisterCommand returns (cmd)
   props C16 C15 C08
   ensures @name cmd != nil && cmd.Name == "register" && len(cmd.Aliases) == 1 && cmd.Aliases[0] == "reg"
   ensures @flags [C16 C15] len(cmd.Flags) == 12 && RegStrFlag(cmd.Flags[0], "begin") && RegStrFlag(cmd.Flags[1], "end") && RegStrFlag(cmd.Flags[2], "single-food") && RegStrFlag(cmd.Flags[3], "single-element") && RegBoolFlag(cmd.Flags[4], "group-food") && RegBoolFlag(cmd.Flags[5], "csv") && RegBoolFlag(cmd.Flags[6], "no-color") && RegBoolFlag(cmd.Flags[7], "no-totals") && RegBoolFlag(cmd.Flags[8], "totals-only") && RegBoolFlag(cmd.Flags[9], "shorten") && RegBoolFlag(cmd.Flags[10], "use-old-reg-reporter") && RegStrFlag(cmd.Flags[11], "internal-template-name")
+
+// The two register templates (C02, C15). text/template interprets them at run time, so what they DO is outside the
+// contracts; what they ARE is pinned: per food its name and quantity ($el), per resolved element its name and
+// quantity x amount ($ing), per total its name, positive, negative and sum - the same fields in both templates, which
+// differ in alignment only. Any edit of a template shows up here and has to be reviewed against this description.
+func getInternalTemplate returns (r)
+  props C02 C15 C08
+  ensures @left-aligned [C15 C02] internalTemplateName == "left-aligned" ==> r == "{{formatDate .Time}}\n{{- if .Elements }}\n{{- range $el := .Elements}}\n{{ printf \"  %s  %s\" (formatValue $el.Value) $el.Name}}\n{{- range $ing := $el.Ingredients}}\n{{ printf \"  %s    %s\" (formatValue $ing.Value) $ing.Name }}\n{{- end}}\n{{- end}}\n{{- end}}\n{{- if .Totals }}\n------------------------------------------------------- TOTAL --\n{{- range $total := .Totals }}\n{{ printf \"  %s %s = %s  %s\" (formatValue $total.Positive) (formatValue $total.Negative) (formatValue $total.Sum) $total.Name }}\n{{- end}}\n{{- end}}\n"
+  ensures @default [C02 C15] internalTemplateName != "left-aligned" ==> r == "{{formatDate .Time}}\n{{- if .Elements }}\n{{- range $el := .Elements}}\n{{ printf \"\\t%-27s :%s\" (shorten $el.Name 27) (formatValue $el.Value) }}\n{{- range $ing := $el.Ingredients}}\n{{ printf \"\\t\\t%20s %s\" (shorten $ing.Name 20) (formatValue $ing.Value) }}\n{{- end}}\n{{- end}}\n{{- end}}\n{{- if .Totals }}\n\t-- TOTAL  ----------------------------------------------------\n{{- range $total := .Totals }}\n{{ printf \"\\t\\t%20s %s %s =%s\" (shorten $total.Name 20) (formatValue $total.Positive) (formatValue $total.Negative) (formatValue $total.Sum) }}\n{{- end}}\n{{- end}}\n"
 @*/
